@@ -17,7 +17,7 @@ EXPLANATION = (
 
 def run(tier):
     cr = CheckRun("C14", tier, "other", EXPLANATION, "DESIGN §4 C14")
-    cr.contracts(["contracts.c14"])
+    cr.contracts(["contracts.c14", "contracts.c14b"])
     from pyvc import guards
     stages = ["parse", "visit", "lower_program", "plan_layout", "emit_from_plan"]
     for q in ("dsl_compiler/cli.py::compile_dsl_source", "compile.py::compile_dsl_file"):
